@@ -61,6 +61,19 @@ def version_text_ok(t):
     return bool(t) and t[0] not in "<>=!*" and all(33 <= ord(c) <= 126 and c not in "|\\'\"" for c in t)
 
 
+def version_ok(v):
+    """a version the text-level properties (C05, C13, C17) quantify over: delimiter-free text that constructs the same
+    version again with the same text (the round trip itself is C11's business and is reported there)"""
+    t = str(v)
+    if not version_text_ok(t):
+        return False
+    try:
+        w = type(v)(t)
+        return w == v and str(w) == t
+    except Exception:  # noqa
+        return False
+
+
 def random_range(r, scheme, n, ops=None, distinct=True):
     """a list of real constraints over scheme.lad (positions sampled), any comparators"""
     vc, vr, vs = vers.impl()
